@@ -32,6 +32,9 @@ NAMES = ["camera", "lights", "tex", "smp", "data", "out_buf", "params", "Δ", "x
          "baseColor", "lightDir", "light_dir", "LightDir", "tex2D", "Tex", "TEX", "uTime", "_private", "x1", "X1",
          "normalMap", "HDR", "rgbaOut", "gr\u00f6\u00dfe",
          # names as naga_oil writes them for imported items: the field is named like the variable, decoration included
+         # words that are (or may become) keywords in SOME Rust edition but are plain identifiers in the edition of the
+         # generated module: the field is named exactly like the variable
+         "gen", "raw", "safe", "dyn_", "r_gen", "try_",
          "camX_naga_oil_mod_XMNXW23LPNYX", "camX_naga_oil_mod_XOBRHEX", "cam", "lightsX_naga_oil_mod_XMNXW23LPNYX"]
 
 
@@ -155,7 +158,21 @@ def cases(rng, tier):
             out.append({"wgsl": render(decls, rng), "family": "same_names_other_indices", "opts": {}, "truth": truth_of(decls)})
     # the special families first: they must be among the modules that are compiled and run on the shim
     out.sort(key=lambda c: 0 if c["family"] in ("lookalike_groups", "many_groups", "same_names_other_indices") else 1)
-    return out
+    # a call the generator answers with its documented panic is followed, ON THE SAME WORKER THREAD (the driver hands out
+    # chunks of four consecutive cases), by accepted shaders: whatever the failed call left behind, they get their own fields
+    special = [c for c in out if c["family"] in ("lookalike_groups", "many_groups", "same_names_other_indices")]
+    rest = [c for c in out if c not in special]
+    bad = [c for c in rest if c["family"] == "unsupported_resource"]
+    good = [c for c in rest if c["family"] != "unsupported_resource"]
+    while len(special) % 4 and good:
+        special.append(good.pop())
+    blocks = []
+    for b_ in bad:
+        if len(good) < 3:
+            blocks.append(b_)
+            continue
+        blocks += [good.pop(), b_, good.pop(), good.pop()]
+    return special + blocks + good
 
 
 def run_cases(plain, cases_, workdir, tag):
